@@ -5,8 +5,11 @@ package main
 // send and at the normal return of a procedure.
 
 import (
+	"fmt"
 	"go/token"
 	"go/types"
+	"os"
+	"path/filepath"
 	"strings"
 
 	"golang.org/x/tools/go/ssa"
@@ -83,10 +86,75 @@ func init() {
 }
 
 func init() {
-	// strings.Split: the pieces are not tracked (used by the drivers only to derive a session id)
+	// strings.Split(s, sep) with a one-octet constant separator and a string of constant length whose
+	// separator positions are decided by the preconditions: the pieces are substrings of s.  Anything
+	// else: the pieces are not tracked.
 	extModels["strings.Split"] = func(x *Exec, fr *Frame, args []Value, pos token.Pos) Value {
-		return UnknownV{nil, "strings.Split"}
+		unknown := UnknownV{nil, "strings.Split"}
+		s, ok1 := x.snapSlice(args[0])
+		sep, ok2 := x.snapSlice(args[1])
+		if !ok1 || !ok2 || !s.Len.IsConst() || !sep.Len.IsConst() || sep.Len.Val.Int64() != 1 || s.Len.Val.Int64() > 64 || s.Obj == nil {
+			return unknown
+		}
+		sc := x.byteAt(sep, bv64(0))
+		if !sc.IsConst() {
+			return unknown
+		}
+		n := int(s.Len.Val.Int64())
+		var pieces []Value
+		start := 0
+		for i := 0; i < n; i++ {
+			c := x.underPC(Eq(x.byteAt(s, bv64(int64(i))), sc))
+			if !c.IsConst() {
+				if x.probeValid(c) {
+					c = True()
+				} else if x.probeValid(Not(c)) {
+					c = False()
+				} else {
+					return unknown
+				}
+			}
+			if c.IsTrue() {
+				pieces = append(pieces, SliceV{Obj: s.Obj, Off: BvAdd(s.Off, bv64(int64(start))), Len: bv64(int64(i - start)), Cap: bv64(int64(i - start)), Nil: False(), Str: true})
+				start = i + 1
+			}
+		}
+		pieces = append(pieces, SliceV{Obj: s.Obj, Off: BvAdd(s.Off, bv64(int64(start))), Len: bv64(int64(n - start)), Cap: bv64(int64(n - start)), Nil: False(), Str: true})
+		o := x.newObject(types.Typ[types.String], "split")
+		x.st.heap.m[o] = ArrayV{pieces}
+		ln := bv64(int64(len(pieces)))
+		return SliceV{Obj: o, Off: bv64(0), Len: ln, Cap: ln, Nil: False()}
 	}
+}
+
+// snapSlice: the value as a slice, if it is one.
+func (x *Exec) snapSlice(v Value) (s SliceV, ok bool) {
+	defer func() {
+		if r := recover(); r != nil {
+			if _, isU := r.(Unsupported); !isU {
+				panic(r)
+			}
+			ok = false
+		}
+	}()
+	if _, isU := v.(UnknownV); isU {
+		return SliceV{}, false
+	}
+	return asSlice(v), true
+}
+
+// probeValid asks the solvers (3 s) whether c follows from the assumptions and the path condition.
+func (x *Exec) probeValid(c *Term) bool {
+	if x.dry > 0 || x.st == nil {
+		return false
+	}
+	hyps := relevantHyps(x.assumes, x.st.pc)
+	asserts := append(append([]*Term{}, hyps...), x.st.pc, Not(c))
+	probeCtr++
+	name := fmt.Sprintf("govc_probe_%d_%d", os.Getpid(), probeCtr)
+	res := Solve(Script(asserts, nil, x.probeOpaque), os.TempDir(), name, 3)
+	os.Remove(filepath.Join(os.TempDir(), name+".smt2"))
+	return res.Verdict == "unsat"
 }
 
 func sendCount(x *Exec) {
